@@ -107,7 +107,7 @@ class Ref:
                 self.obs.append((self.clock, self.warmed, a[1], a[2:]))
             elif k == "strategy":
                 self.strategy = a[1]        # the error strategy may be changed while the simulation runs
-            elif k in ("gate", "noop", "cmd", "fire", "draw", "badstrategy", "rebound", "stopfail", "refused_inside"):     # a refused strategy change changes nothing
+            elif k in ("gate", "noop", "cmd", "fire", "draw", "badstrategy", "rebound", "stopfail", "refused_inside", "endrep"):     # a refused strategy change changes nothing
                 pass
             else:
                 raise ValueError(f"reference interpreter: unknown action {a}")
